@@ -169,7 +169,7 @@ def prove(pid, timeout=1500):
     if bad:
         res["log"] = "forbidden vernacular: " + ", ".join(bad); res["failing"] = "forbidden-vernacular"
         return res
-    ok, log = coq_make(timeout=timeout)
+    ok, log = coq_make(targets=["theories/%s/Props.vo" % pid, "theories/Extract.vo"], timeout=timeout)
     if not ok:
         m = re.search(r'File "([^"]+)", line (\d+)', log)
         res["log"] = log[-3000:]
@@ -311,3 +311,14 @@ def check_fingerprints(ctx, fps):
         ctx.escalated = True
         ctx.notes.append("source drift in: " + ", ".join(drift) + " -> thorough budget used")
     return drift
+
+
+def fingerprint_defs(relpath, quals):
+    """normalised-AST fingerprints of the named functions/classes of one source file (source-drift escalation)"""
+    from harness.translate import pyexpr
+    tree = pyexpr.parse_file(os.path.join(REPO, relpath))
+    out = {}
+    for q in quals:
+        try: out[relpath + ":" + q] = pyexpr.fingerprint(pyexpr.find_def(tree, q))
+        except Exception as e: out[relpath + ":" + q] = "missing"
+    return out
